@@ -328,7 +328,7 @@ def frame_variants(name, ft, asp, ep, role):
     return out
 
 
-def random_frames(rnd, role, n, fatal_p=0.0, tp=None):
+def random_frames(rnd, role, n, fatal_p=0.0, tp=None, state=None):
     """n frames, mostly acceptable in 1-RTT packets, with boundary values now and then."""
     s = sids(role)
     out = b""
@@ -342,31 +342,68 @@ def random_frames(rnd, role, n, fatal_p=0.0, tp=None):
             out += f[:rnd.randrange(1, len(f) + 1)] if rnd.random() < 0.3 else f
             continue
         if c < 0.25:
-            off = rnd.choice([0, 0, 1, 5, 100, 1000])
-            out += H.f_stream(sid, off, bytes(rnd.choice([0, 1, 10, 200])), fin=rnd.random() < 0.2, with_off=True)
+            if state is not None:       # a peer whose STREAM frames are consistent: contiguous data, nothing after the final size
+                st = state.setdefault("streams", {})
+                sid = rnd.choice([s["peer_bidi"], s["peer_uni"]]) + 8      # streams the genuine application does not use
+                while st.get(sid, 0) < 0:
+                    sid += 4
+                o = st.get(sid, 0)
+                if o < 0:
+                    out += b"\x01"
+                    continue
+                n_ = rnd.choice([0, 1, 10, 200])
+                fin = rnd.random() < 0.15
+                back = rnd.choice([0, 0, 0, min(o, 5)])
+                out += H.f_stream(sid, o - back, bytes(n_ + back), fin=fin, with_off=True)
+                st[sid] = -1 if fin else o + n_
+            else:
+                off = rnd.choice([0, 0, 1, 5, 100, 1000])
+                out += H.f_stream(sid, off, bytes(rnd.choice([0, 1, 10, 200])), fin=rnd.random() < 0.2, with_off=True)
         elif c < 0.35:
             out += H.f_ack(rnd.choice([0, 1, 2, 5, 20]), rnd.choice([0, 100, 1 << 20]), rnd.choice([0, 0, 1]))
         elif c < 0.45:
             out += H.f_max_data(rnd.choice([0, 1 << 20, 1 << 24, M62]))
         elif c < 0.55:
-            out += H.f_max_stream_data(rnd.choice([s["own_bidi"], s["peer_bidi"]]), rnd.choice([0, 1 << 20, M62]))
+            out += H.f_max_stream_data(s["own_bidi"] if state is None or state.get("opened") else s["peer_bidi"], rnd.choice([0, 1 << 20, M62]))
         elif c < 0.62:
             out += H.f_max_streams(rnd.choice([0, 10, 128, 1000, 1 << 60]), uni=rnd.random() < 0.5)
         elif c < 0.70:
             out += rnd.choice([H.f_data_blocked(5), H.f_stream_data_blocked(sid, 7), H.f_streams_blocked(3), H.f_streams_blocked(3, uni=True)])
         elif c < 0.78:
-            out += H.f_path_challenge(bytes(rnd.getrandbits(8) for _ in range(8)))
+            # (the target answers a PATH_CHALLENGE to the genuine peer, which closes on the unsolicited response: rare in sessions)
+            out += H.f_path_challenge(bytes(rnd.getrandbits(8) for _ in range(8))) if state is None or rnd.random() < 0.03 else H.f_data_blocked(rnd.choice([0, 9, M62]))
         elif c < 0.84:
-            seq = rnd.choice([8, 9, 10, 11, 12, 30])
-            out += H.f_new_cid(seq, rnd.choice([0, 0, 1, seq]), bytes([0xb0 + seq % 16]) * 8)
+            if state is not None:       # a peer that issues connection IDs in order and retires old ones as it goes
+                state["seq"] = seq = state.get("seq", 7) + 1
+                out += H.f_new_cid(seq, max(0, seq - rnd.choice([2, 3, 6])), seq.to_bytes(8, "big"))
+            else:
+                seq = rnd.choice([8, 9, 10, 11, 12, 30])
+                out += H.f_new_cid(seq, rnd.choice([0, 0, 1, seq]), bytes([0xb0 + seq % 16]) * 8)
         elif c < 0.88:
-            out += H.f_retire_cid(rnd.choice([1, 2, 3, 4, 5]))
+            if state is not None:
+                state["ret"] = r_ = state.get("ret", 1) + 1
+                out += H.f_retire_cid(r_) if r_ < 7 else b"\x01"
+            else:
+                out += H.f_retire_cid(rnd.choice([1, 2, 3, 4, 5]))
         elif c < 0.92:
-            out += H.f_reset_stream(sid, 3, rnd.choice([0, 1, 1200])) if rnd.random() < 0.5 else H.f_stop_sending(rnd.choice([s["own_bidi"], s["peer_bidi"]]), 4)
+            if state is not None:
+                st = state.setdefault("streams", {})
+                u = s["peer_uni"] + 8
+                if rnd.random() < 0.5 and st.get(u, 0) >= 0:
+                    out += H.f_reset_stream(u, 3, st.get(u, 0))
+                    st[u] = -1
+                elif state.get("opened"):
+                    out += H.f_stop_sending(s["own_bidi"], 4)
+                else:
+                    out += b"\x01"
+            else:
+                out += H.f_reset_stream(sid, 3, rnd.choice([0, 1, 1200])) if rnd.random() < 0.5 else H.f_stop_sending(rnd.choice([s["own_bidi"], s["peer_bidi"]]), 4)
         elif c < 0.96:
             out += b"\x01" + bytes(rnd.choice([0, 1, 30]))
         else:
-            out += H.f_datagram(bytes(rnd.choice([0, 5, 100]))) + H.f_new_token(b"t" * rnd.choice([1, 30]))
+            out += H.f_datagram(bytes(rnd.choice([0, 5, 100]))) if state is None or state.get("datagram") else b"\x01"
+            if role == "client":
+                out += H.f_new_token(b"t" * rnd.choice([1, 30]))
     return out
 
 
